@@ -1,15 +1,271 @@
 /-
 C01 — a part is a consistent time-ordered collection under any edit history.
-Property theorems over Model/Timeline.lean and the regenerated class DAG.
+
+Property theorems over Model/Timeline.lean (the `Part` timeline state machine, mirroring the code after the
+repairs fixes/C01-1..3) and the regenerated class DAG (Gen/Classes.lean).  Helper lemmas: Proofs/C01*.lean.
+
+Vocabulary (all defined in Model/Timeline.lean unless noted):
+  `Inv s`            the state invariant: times strictly increasing and non-negative, prev/next are exactly the
+                     neighbours, every object's start/end is the very point that lists it (and only that one),
+                     no point is empty unless requested through get_or_add_point, each point carries the quarter
+                     duration in force, the quarter table is strictly sorted from time 0
+  `Valid s op`       arguments the property quantifies over (`add` supplies a side only if the object is not
+                     registered on it; quarter durations are set at times ≥ 0)
+  `op.negTime`       the operation carries a negative time-point argument (Proofs/C01Ops)
+  `ValidHistory`     every operation of a history is `Valid` in the state it meets (Proofs/C01Main)
+  `getObj s.objs o`  the record (start, end) of object `o`
 -/
-import PartituraModel.Model.Timeline
+import PartituraModel.Proofs.C01Main
 
 namespace C01
 open TL
 
-/-- the generated DFS table is what the modelled `iter_subclasses` computes from `__subclasses__()` -/
-theorem classes_dfs_table :
-    ∀ c ∈ List.range Gen.numClasses, iterSubclasses c = Gen.iterSubclassesTab.getD c [] := by
+/-! ### the invariant holds initially, is kept by every valid operation, hence in every reachable state -/
+
+theorem inv_init (q : Nat) : Inv (Part.init q) := init_inv q
+
+theorem inv_step {s s' : Part} {op : Op} {out : Out} (hI : Inv s) (hv : Valid s op)
+    (h : step s op = .ok (s', out)) : Inv s' := step_preserves hI hv h
+
+/-- by induction over the operation list; rejected operations leave the state as it was -/
+theorem inv_reachable (q : Nat) (ops : List Op) (hv : ValidHistory (Part.init q) ops) :
+    Inv (run (Part.init q) ops) := run_inv (init_inv q) ops hv
+
+/-- the executable invariant the driver evaluates on model states is `Inv` -/
+theorem invB_iff (s : Part) : invB s = true ↔ Inv s := by
+  constructor
+  · intro h
+    simp only [invB, Bool.and_eq_true, decide_eq_true_eq] at h
+    obtain ⟨⟨⟨⟨⟨⟨⟨⟨⟨⟨⟨⟨h1, h2⟩, h3⟩, h4⟩, h5⟩, h6⟩, h7⟩, h8⟩, h9⟩, h10⟩, h11⟩, h12⟩, h13⟩ := h
+    exact ⟨h1, h2, h3, h4, h5, h6, fun sd e he t ht => h7 sd e he t (by simpa using ht), h8, h9, h10, h11, h12, h13⟩
+  · intro h
+    simp only [invB, Bool.and_eq_true, decide_eq_true_eq]
+    exact ⟨⟨⟨⟨⟨⟨⟨⟨⟨⟨⟨⟨h.sorted, h.nonneg⟩, h.links⟩, h.regNodup⟩, h.objsNodup⟩, h.listed⟩,
+      fun sd e he t ht => h.refOn sd e he t (by simpa using ht)⟩, h.listedKnown⟩, h.nonempty⟩, h.requestedOn⟩,
+      h.quarter⟩, h.qsorted⟩, h.qhead⟩
+
+/-! ### no operation raises on valid arguments; negative times are rejected and nothing changes -/
+
+/-- an operation with valid, non-negative arguments never raises (and keeps the invariant) -/
+theorem step_total {s : Part} {op : Op} (hI : Inv s) (hv : Valid s op) (hn : op.negTime = false) :
+    ∃ s' out, step s op = .ok (s', out) ∧ Inv s' := step_ok hI hv hn
+
+/-- a negative time point is rejected with InvalidTimePointException, whatever the state -/
+theorem step_rejects (s : Part) (op : Op) (hn : op.negTime = true) :
+    step s op = .error .invalidTimePoint := negTime_rejected s op hn
+
+/-- … and the part is left exactly as it was (the next operation of the history meets the same state) -/
+theorem rejected_unchanged (s : Part) (op : Op) (ops : List Op) (hn : op.negTime = true) :
+    run s (op :: ops) = run s ops := by
+  simp [run, negTime_rejected s op hn]
+
+/-- read-only operations return the state they were given -/
+theorem query_frame {s s' : Part} {op : Op} {out : Out} (hq : op.isQuery = true)
+    (h : step s op = .ok (s', out)) : s' = s := query_state hq h
+
+/-! ### the part is exactly the collection of the objects registered on it -/
+
+/-- effect of `add` on the registration records: the supplied sides are set, nothing else changes;
+the new time points are exactly the supplied times -/
+theorem add_effect {s : Part} {o : ObjRef} {st en : Option Int} (hI : Inv s)
+    (hv : Valid s (.add o st en)) (hn : (Op.add o st en).negTime = false) :
+    ∃ s', step s (.add o st en) = .ok (s', .unit) ∧ Inv s' ∧ s'.qtab = s.qtab
+      ∧ (getObj s'.objs o).start = (if st.isSome then st else (getObj s.objs o).start)
+      ∧ (getObj s'.objs o).stop = (if en.isSome then en else (getObj s.objs o).stop)
+      ∧ (∀ o', o' ≠ o → getObj s'.objs o' = getObj s.objs o')
+      ∧ (∀ x, x ∈ s'.times ↔ x ∈ s.times ∨ some x = st ∨ some x = en) := by
+  obtain ⟨s', h1, h2, h3, -, h5, h6, h7, h8⟩ := add_spec ((good_iff_inv s).mpr hI) hv hn
+  exact ⟨s', h1, (good_iff_inv s').mp h2, h3, h5, h6, h7, h8⟩
+
+/-- effect of `remove`: the requested sides are cleared, nothing else changes -/
+theorem remove_effect {s : Part} (hI : Inv s) (o : ObjRef) (w : Which) :
+    ∃ s', step s (.remove o w) = .ok (s', .unit) ∧ Inv s' ∧ s'.qtab = s.qtab
+      ∧ (getObj s'.objs o).start = (if w = .start ∨ w = .both then none else (getObj s.objs o).start)
+      ∧ (getObj s'.objs o).stop = (if w = .stop ∨ w = .both then none else (getObj s.objs o).stop)
+      ∧ (∀ o', o' ≠ o → getObj s'.objs o' = getObj s.objs o') := by
+  obtain ⟨s', h1, h2, h3, h4, h5, h6⟩ := remove_spec ((good_iff_inv s).mpr hI) o w
+  exact ⟨s', h1, (good_iff_inv s').mp h2, h3, h4, h5, h6⟩
+
+/-- `get_or_add_point(t)` returns the point at `t`, creating it if necessary; registrations and the quarter
+table are untouched, and `t` is the only time that may have been added -/
+theorem getOrAdd_effect {s : Part} (hI : Inv s) {t : Int} (ht : 0 ≤ t) :
+    ∃ s', step s (.getOrAdd t) = .ok (s', .point (some t)) ∧ Inv s' ∧ s'.qtab = s.qtab ∧ s'.objs = s.objs
+      ∧ t ∈ s'.times ∧ (∀ x, x ∈ s'.times ↔ x ∈ s.times ∨ x = t) := by
+  obtain ⟨s', h1, h2, h3, h4, h5, h6⟩ := getOrAdd_spec ((good_iff_inv s).mpr hI) ht
+  exact ⟨s', h1, (good_iff_inv s').mp h2, h3, h4, h5, h6⟩
+
+/-- the time points are exactly the start/end times of the registered objects plus the requested points
+(with `Inv.sorted` the point list is that set in increasing order, without repetition) -/
+theorem points_are_spec {s : Part} (hI : Inv s) (x : Int) :
+    x ∈ s.times ↔ (∃ e ∈ s.objs, e.start = some x ∨ e.stop = some x) ∨ x ∈ s.requested := times_spec hI x
+
+/-- an object is listed by a point exactly when its back reference is that point's time -/
+theorem listed_iff_backref {s : Part} (hI : Inv s) (sd : Side) (o : ObjRef) {p : Point} (hp : p ∈ s.points) :
+    o ∈ p.reg sd ↔ (getObj s.objs o).at sd = some p.t :=
+  ((good_iff_inv s).mpr hI).1.getObj_listed sd o hp
+
+/-! ### set_quarter_duration -/
+
+/-- the new value is in force from `t` up to the next later change, and nothing else changes:
+other times keep their duration, every point carries the duration now in force (part of `Inv`), and
+points, links, registries and object references are untouched -/
+theorem setQD_law {s : Part} (hI : Inv s) {t : Int} (ht : 0 ≤ t) (q : Nat) :
+    (∀ x, 0 ≤ x → ∀ v, qdAt s.qtab x = some v →
+        qdAt (setQD s t q).qtab x = some (if t ≤ x ∧ ltOpt x (nextChange s.qtab t) then q else v))
+    ∧ (setQD s t q).objs = s.objs ∧ (setQD s t q).requested = s.requested
+    ∧ (setQD s t q).points.map (fun p => (p.t, p.prev, p.next, p.starting, p.ending))
+        = s.points.map (fun p => (p.t, p.prev, p.next, p.starting, p.ending))
+    ∧ Inv (setQD s t q) := by
+  have hg := (good_iff_inv s).mpr hI
+  have r := setQD_result hg.1 ht q
+  exact ⟨r.law, r.objs, r.requested, r.same, (good_iff_inv _).mp (setQD_good hg ht q)⟩
+
+/-- `quarter_durations(a, b)` returns the stored changes with `a ≤ time < b`, in table order -/
+theorem quarterDurations_correct (s : Part) (a b : Option Int) (e : Int × Nat) :
+    e ∈ quarterDurations s a b ↔ e ∈ s.qtab ∧ (∀ x, a = some x → x ≤ e.1) ∧ (∀ y, b = some y → e.1 < y) := by
+  unfold quarterDurations
+  cases a <;> cases b <;> simp [List.mem_filter] <;> intro _ <;> exact And.comm
+
+/-! ### queries return precisely the matching registered objects in time order -/
+
+/-- `iter_all(cls, start=a, end=b, include_subclasses, mode)`: duplicate-free, exactly the objects registered
+on the side selected by `mode` whose time lies in `[a, b)` and whose class matches, in time order -/
+theorem iterAll_correct {s : Part} (hI : Inv s) (cls : Option Nat) (a b : Option Int) (incl : Bool) (mode : Mode)
+    (hk : ∀ e ∈ s.objs, e.ref.cls < Gen.numClasses) (hc : ∀ c, cls = some c → c < Gen.numClasses) :
+    (iterAll s cls a b incl mode).Nodup
+    ∧ (∀ o, o ∈ iterAll s cls a b incl mode ↔
+        ∃ τ, (getObj s.objs o).at mode.side = some τ ∧ inRange a b τ ∧ ClassSpec cls (inclEff cls incl) o.cls)
+    ∧ (iterAll s cls a b incl mode).Pairwise (fun o1 o2 => ∀ t1 t2,
+        (getObj s.objs o1).at mode.side = some t1 → (getObj s.objs o2).at mode.side = some t2 → t1 ≤ t2) :=
+  iterAll_spec hI cls a b incl mode hk hc
+
+/-- `get_point(t).iter_prev(cls, eq, include_subclasses)`: the matching objects starting before `t`
+(at `t` too with `eq`), latest first; `noPoint` iff the timeline has no point at `t` -/
+theorem iterPrev_correct {s : Part} (hI : Inv s) {t : Int} (ht : 0 ≤ t) (cls : Option Nat) (eq incl : Bool)
+    (hk : ∀ e ∈ s.objs, e.ref.cls < Gen.numClasses) (hc : ∀ c, cls = some c → c < Gen.numClasses) :
+    ∃ out, step s (.iterPrev t cls eq incl) = .ok (s, out) ∧
+      (t ∉ s.times → out = .noPoint) ∧
+      (t ∈ s.times → ∃ l, out = .objs l ∧ l.Nodup
+        ∧ (∀ o, o ∈ l ↔ ∃ τ, (getObj s.objs o).start = some τ ∧ (τ < t ∨ (eq = true ∧ τ = t))
+            ∧ ClassSpec cls incl o.cls)
+        ∧ l.Pairwise (fun o1 o2 => ∀ t1 t2, (getObj s.objs o1).start = some t1 →
+            (getObj s.objs o2).start = some t2 → t2 ≤ t1)) := by
+  have hg := (good_iff_inv s).mpr hI
+  refine ⟨_, by simp only [step, iterPrev_spec hg ht, Except.map]; rfl, ?_, ?_⟩
+  · intro h; simp [h]
+  · intro h
+    simp only [h, if_true]
+    exact ⟨_, rfl, iterPrev_objs_spec hI t cls eq incl hk hc⟩
+
+theorem iterNext_correct {s : Part} (hI : Inv s) {t : Int} (ht : 0 ≤ t) (cls : Option Nat) (eq incl : Bool)
+    (hk : ∀ e ∈ s.objs, e.ref.cls < Gen.numClasses) (hc : ∀ c, cls = some c → c < Gen.numClasses) :
+    ∃ out, step s (.iterNext t cls eq incl) = .ok (s, out) ∧
+      (t ∉ s.times → out = .noPoint) ∧
+      (t ∈ s.times → ∃ l, out = .objs l ∧ l.Nodup
+        ∧ (∀ o, o ∈ l ↔ ∃ τ, (getObj s.objs o).start = some τ ∧ (t < τ ∨ (eq = true ∧ τ = t))
+            ∧ ClassSpec cls incl o.cls)
+        ∧ l.Pairwise (fun o1 o2 => ∀ t1 t2, (getObj s.objs o1).start = some t1 →
+            (getObj s.objs o2).start = some t2 → t1 ≤ t2)) := by
+  have hg := (good_iff_inv s).mpr hI
+  refine ⟨_, by simp only [step, iterNext_spec hg ht, Except.map]; rfl, ?_, ?_⟩
+  · intro h; simp [h]
+  · intro h
+    simp only [h, if_true]
+    exact ⟨_, rfl, iterNext_objs_spec hI t cls eq incl hk hc⟩
+
+/-- `first_point` / `last_point` are the minimum / maximum of the time points (None iff there are none) -/
+theorem first_last_correct {s : Part} (hI : Inv s) :
+    step s .first = .ok (s, .point s.times.head?) ∧ step s .last = .ok (s, .point s.times.getLast?)
+    ∧ (∀ h ∈ s.times.head?, ∀ x ∈ s.times, h ≤ x) ∧ (∀ h ∈ s.times.getLast?, ∀ x ∈ s.times, x ≤ h)
+    ∧ (s.times.head? = none ↔ s.times = []) ∧ (s.times.getLast? = none ↔ s.times = []) := by
+  refine ⟨by simp [step, Part.times], by simp [step, Part.times], head_min hI.sorted, getLast_max hI.sorted,
+    by simp, by simp⟩
+
+/-- `get_point(t)` finds the point with time `t` iff there is one -/
+theorem getPoint_correct {s : Part} (hI : Inv s) {t : Int} (ht : 0 ≤ t) :
+    step s (.getPoint t) = .ok (s, .point (if t ∈ s.times then some t else none)) := by
+  have hneg : ¬ t < 0 := by omega
+  simp only [step, hneg, if_false]
+  by_cases hm : t ∈ s.times
+  · obtain ⟨l, p, r, hsplit, hpt, -, -⟩ := split_at_time hI.sorted hm
+    have hs := hI.sorted
+    rw [Part.times, hsplit] at hs
+    subst hpt
+    rw [hsplit, getPoint_of_split hs]
+    simp [hm]
+  · rw [getPoint_none_of_not_mem hm]
+    simp [hm]
+
+/-! ### the class hierarchy regenerated from the live classes (whole-table kernel evaluation) -/
+
+/-- the modelled depth-first `iter_subclasses` yields, for every timed class, the very sequence the
+implementation yields; that sequence is duplicate-free, never contains the class itself, and consists of
+exactly the strict descendants according to the (independently generated) MRO table -/
+theorem classes_dfs :
+    (∀ c ∈ List.range Gen.numClasses, iterSubclasses c = Gen.iterSubclassesTab.getD c [])
+    ∧ (∀ c ∈ List.range Gen.numClasses, (iterSubclasses c).Nodup ∧ c ∉ iterSubclasses c)
+    ∧ (∀ c ∈ List.range Gen.numClasses, ∀ d ∈ List.range Gen.numClasses,
+        (d ∈ iterSubclasses c ↔ (d ≠ c ∧ isSubclass d c = true))) :=
+  ⟨iterSubclasses_eq_tab, iterSubclasses_nodup_tab, iterSubclasses_desc_tab⟩
+
+/-- `iter_all(cls=None)` walks every timed class exactly once -/
+theorem classes_object :
+    Gen.objectSubclasses.Nodup ∧ ∀ k ∈ List.range Gen.numClasses, k ∈ Gen.objectSubclasses :=
+  objectSubclasses_tab
+
+/-! ### non-vacuity: the hypotheses above are satisfiable by non-trivial values -/
+
+section Examples
+
+/-- a Note (class 2), a GraceNote (3) and a DynamicLoudnessDirection (38) -/
+def nA : ObjRef := { id := 0, cls := 2 }
+def nB : ObjRef := { id := 1, cls := 3 }
+def dC : ObjRef := { id := 2, cls := 38 }
+def rD : ObjRef := { id := 3, cls := 5 }
+
+deriving instance DecidableEq for Except
+
+/-- 14 operations: adds by start/end/both with equal start and end, a re-set quarter duration at an existing
+change, removal at the first and at the last point, a requested empty point, a rejected negative time -/
+def history : List Op :=
+  [.add nA (some 0) (some 4), .add nB (some 4) (some 4), .add dC (some 2) none, .setQD 4 2, .setQD 4 1,
+   .add dC none (some 9), .getOrAdd 7, .add rD (some 3) (some (-1)), .remove nA .both, .remove dC .stop,
+   .iterAll (some 1) none (some 5) true .starting, .remove nB .start, .setQD 0 3, .iterPrev 4 (some 0) true true]
+
+example : ValidHistory (Part.init 1) history := by decide +kernel
+example : Inv (run (Part.init 1) history) := (invB_iff _).mp (by decide +kernel)
+/-- the final state is not trivial: three points, one of them empty-but-requested, a three-entry table -/
+example : (run (Part.init 1) history).points.map (fun p => (p.t, p.quarter, p.prev, p.next))
+    = [(2, 3, none, some 4), (4, 1, some 2, some 7), (7, 1, some 4, none)]
+    ∧ (run (Part.init 1) history).qtab = [(0, 3), (4, 1)] := by decide +kernel
+
+/-- `step_total` / `inv_step`: a valid non-negative operation on a reachable non-empty state -/
+example : Valid (run (Part.init 1) history) (.add nA (some 7) (some 2))
+    ∧ (Op.add nA (some 7) (some 2)).negTime = false := by decide +kernel
+/-- `step_rejects`: a negative end with a valid start -/
+example : (Op.add rD (some 3) (some (-1))).negTime = true := by decide
+/-- the witness of F-C01-4 on the repaired model: rejected and nothing registered -/
+example : step (Part.init 1) (.add rD (some 3) (some (-1))) = .error .invalidTimePoint := by decide +kernel
+/-- the witnesses of F-C01-1/2 on the repaired model: removing the last / the first point relinks correctly -/
+example : (run (Part.init 1) [.add nA (some 0) (some 1), .add nB (some 5) (some 9), .remove nB .stop]).points.map
+    (fun p => (p.t, p.prev, p.next)) = [(0, none, some 1), (1, some 0, some 5), (5, some 1, none)] := by
   decide +kernel
+example : (run (Part.init 1) [.add nA (some 0) none, .add nB (some 5) (some 9), .remove nA .both]).points.map
+    (fun p => (p.t, p.prev, p.next)) = [(5, none, some 9), (9, some 5, none)] := by
+  decide +kernel
+/-- the witness of F-C01-3 on the repaired model: the entry stored at 10 is replaced -/
+example : (run (Part.init 1) [.setQD 10 2, .setQD 10 1]).qtab = [(0, 1), (10, 1)]
+    ∧ qdAt (run (Part.init 1) [.setQD 10 2, .setQD 10 1]).qtab 12 = some 1 := by decide +kernel
+/-- `setQD_law`: both branches of the law occur (`nextChange` is `some 4` here) -/
+example : nextChange (run (Part.init 1) history).qtab 2 = some 4 ∧ ltOpt 3 (some 4) ∧ ¬ ltOpt 4 (some 4) := by
+  decide +kernel
+/-- `iterAll_correct`: class bounds hold and the query is not empty -/
+example : (∀ e ∈ (run (Part.init 1) history).objs, e.ref.cls < Gen.numClasses)
+    ∧ iterAll (run (Part.init 1) history) (some 0) none none true .starting = [dC] := by decide +kernel
+/-- `iterPrev_correct`: a point exists at 4 and the walk finds the direction that started at 2 -/
+example : step (run (Part.init 1) history) (.iterPrev 4 (some 0) true true)
+    = .ok (run (Part.init 1) history, .objs [dC]) := by decide +kernel
+
+end Examples
 
 end C01
